@@ -19,7 +19,15 @@ import (
 // Rand is splitmix64; every random choice of a run derives from one seed.
 type Rand struct{ s uint64 }
 
-func NewRand(seed uint64) *Rand { return &Rand{s: seed*0x9E3779B97F4A7C15 + 0x1234567} }
+func NewRand(seed uint64) *Rand {
+	// scramble the seed through the output function twice, so that consecutive seeds do not give the
+	// same stream shifted by one draw
+	r := &Rand{s: seed ^ 0x5DEECE66D1234567}
+	a := r.U64()
+	r.s = a ^ (seed * 0xD6E8FEB86659FD93)
+	r.U64()
+	return r
+}
 
 func (r *Rand) U64() uint64 {
 	r.s += 0x9E3779B97F4A7C15
